@@ -40,5 +40,9 @@ def run(rep: Report, tier: str) -> None:
         for c in comps:
             c10._judge(rep, rb, m, fi, c)
     c10.check_per_copy_state(rep, rb)
+    from . import c11
+
+    rd = rep.rule("C09.d", "lots keep the exact instant of their spreadsheet row through the parser's crypto-fee split (C11.e restated): a back-dated lot would become a candidate of an earlier disposal", floor=20)
+    c11.check_split(rep, rd)
     rc = rep.rule("C09.c", "the engine consumes events and lots through time-sorted entry-set iterators over the unfiltered sets", floor=4)
     engine.check_chronological_input(rep, rc)
